@@ -1381,8 +1381,8 @@ impl Property for C16 {
     }
     fn components(&self) -> Value {
         json!({
-            "real": ["smartcore model_selection (KFold, train_test_split, cross_validate, cross_val_predict)", "smartcore DenseMatrix / Vec take()", "rand 0.8.8 SliceRandom::shuffle, gen_range, uniform rejection sampling"],
-            "stub": ["ThreadRng word source (simulator tape)", "estimator fit/predict and scorer closures (recording parties, by design of the seam)"]
+            "real": ["smartcore model_selection (KFold, train_test_split, cross_validate, cross_val_predict)", "smartcore DenseMatrix / Vec take()", "train_test_split also on the crate's ndarray (row-major, column-major, negative strides, stride 2) and nalgebra back ends", "rand 0.8.8 SliceRandom::shuffle, gen_range, uniform rejection sampling"],
+            "stub": ["ThreadRng word source (simulator tape)", "estimator fit/predict and scorer closures (recording parties, by design of the seam)", "splitter party (BaseKFold) in the splitter-party batch: explicit folds, n_splits() possibly only nominal"]
         })
     }
 }
